@@ -126,7 +126,7 @@ def c08_check(info):
 
 
 def _fjob(case):
-    return sweep(case, ["EIO"], c08_check)
+    return sweep(case, ["EIO"], c08_check, probes=True)
 
 
 def main(tier):
